@@ -89,7 +89,9 @@ def trees_for(tier, seed):
              ["wild", "[!a]*"],
              # match-all patterns: true for every tagged element, false for an untagged one ("not *" = untagged only)
              ["wild", "*"], ["not", ["wild", "*"]], ["or", ["not", ["wild", "*"]], ["lit", "a"]], ["and", ["wild", "**"], ["not", ["lit", "b.c"]]],
-             ["wild", "?*"]]
+             ["wild", "?*"],
+             # a star in the middle: the literal parts before and after it do not overlap inside the tag
+             ["wild", "a*a"], ["not", ["wild", "x*x"]], ["and", ["wild", "a.*.x"], ["not", ["lit", "zzz"]]], ["or", ["wild", "b.*.c"], ["wild", "c*cc"]]]
     return base + fixed + extra
 
 
